@@ -61,10 +61,11 @@ def has_atom(st, callee, argkey, op, k):
     return False
 
 
-def rule_inv0(ctx, prog, chk):
+def rule_inv0(ctx, prog, chk, pattern=None, zero_fn="fp_is_zero"):
     n = 0
+    pattern = pattern or INV
     for fn in prog.all:
-        if not INV.match(base(fn)) or len(fn.params) != 2:
+        if not pattern.match(base(fn)) or len(fn.params) != 2:
             continue
         a = fn.params[1]
         g = ctx.xcfg(prog, fn)
@@ -73,15 +74,15 @@ def rule_inv0(ctx, prog, chk):
         nret = 0
         for p, st in normal_returns(F, g):
             nret += 1
-            if not has_atom(st, "fp_is_zero", ("v", a), "==", 0):
+            if not has_atom(st, zero_fn, ("v", a), "==", 0):
                 bad = p
         if nret == 0:
             raise AnalysisBroken("INV0: %s has no normal return" % fn.name)
         n += 1
         if bad is not None:
-            chk.fail("INV0", fn, fn.vars[a]["n"], "a normal return is reachable on which `fp_is_zero(%s)` was not tested false: inverting zero yields a value instead of the error" % fn.vars[a]["n"], line=c05_line(bad, fn))
+            chk.fail("INV0", fn, fn.vars[a]["n"], "a normal return is reachable on which `%s(%s)` was not tested false: inverting zero yields a value instead of the error" % (zero_fn, fn.vars[a]["n"]), line=c05_line(bad, fn))
         else:
-            chk.ok("INV0", fn, fn.vars[a]["n"], "%d normal return(s), each dominated by fp_is_zero(%s) == 0; the zero side throws" % (nret, fn.vars[a]["n"]), line=fn.line)
+            chk.ok("INV0", fn, fn.vars[a]["n"], "%d normal return(s), each dominated by %s(%s) == 0; the zero side throws" % (nret, zero_fn, fn.vars[a]["n"]), line=fn.line)
     return n
 
 
